@@ -42,7 +42,7 @@ def core_det(tier):
         out.append(_sc(f"cd{n}", D, geom, target, options=o, seed=r.randrange(10 ** 6), tags=tags))
         n += 1
 
-    reps = 1 if tier == "quick" else 6
+    reps = 1 if tier == "quick" else 12
     for rep in range(reps):
         # symmetric boxes, optimum inside
         for D in (1, 2, 3):
@@ -168,7 +168,7 @@ def core_noisy(tier):
         out.append(_sc(f"cn{n}", D, geom, target, noise=noise, options=o, seed=r.randrange(10 ** 6), tags=tags))
         n += 1
 
-    reps = 1 if tier == "quick" else 5
+    reps = 1 if tier == "quick" else 10
     for rep in range(reps):
         for mode in ("auto", "declared", "specified"):
             for nf in (0, 1, 3, 10):
@@ -233,7 +233,7 @@ def cons_panel(tier):
                        seed=r.randrange(10 ** 6), tags=tags))
         n += 1
 
-    reps = 1 if tier == "quick" else 5
+    reps = 1 if tier == "quick" else 10
     for rep in range(reps):
         box = S.box_geom(2, -5, 5, -3, 3, x0=[0.5, 0.5])
         # half-space cutting off the optimum
@@ -309,7 +309,7 @@ def steer_panel(tier):
                        seed=r.randrange(10 ** 6), tags=tags))
         n += 1
 
-    reps = 1 if tier == "quick" else 4
+    reps = 1 if tier == "quick" else 8
     for rep in range(reps):
         box = S.box_geom(2, -5, 5, -3, 3, x0=[1.0, 1.0])
         # every ES candidate infeasible: feasible set is the line x2 = 1
